@@ -387,3 +387,118 @@ Definition example_func : sblock :=
 Example C08_stmt_example_func :
   sdiffers example_func = false /\ pp (embed_prog example_func) = pp_prog example_func.
 Proof. split; vm_compute; reflexivity. Qed.
+
+(* ---- statement level, try / func (added) ---- *)
+(* The statement-level theorems above with the guards of Spec/StmtFormatSpec2.v ([wfP2], [wfS2], ...):
+   in addition to the kinds of [wfS],
+     try { } with any number of except clauses — each with any number of error names (string
+     literals; a raw one must be printable raw, as for string terminals) followed by nothing /
+     `as x` / a bare variable `x` —, an optional otherwise block, an optional finally block;
+     func name(p1, ..., pn) { } — every parameter an expression of the guarded expression language
+     (identifiers, presets `x=1`);
+   nested arbitrarily with each other and the kinds already covered.  Same parser side (the full
+   parser model [Parser.parse]), same demands ([StmtRoundTrip], [StmtIdempotent]).  No further
+   guard was needed.  Files: Proofs/StmtKey2.v (key lemma re-done for the new guards; the token
+   after a statement must now also not be except / otherwise / finally, which holds for every
+   token the printer puts there), Proofs/StmtTry.v, Proofs/StmtFunc.v, Proofs/StmtTop2.v,
+   Proofs/StmtFinal2.v. *)
+From Ecal Require Import Spec.StmtFormatSpec2 Proofs.StmtKey2 Proofs.StmtTry Proofs.StmtFunc Proofs.StmtTop2 Proofs.StmtFinal2.
+
+(* the extended guards accept everything the former ones did *)
+Theorem C08_stmt_guards_extended : forall b, wfP b -> wfP2 b.
+Proof. exact wfP_wfP2. Qed.
+Print Assumptions C08_stmt_guards_extended.
+
+(* parse (print p) = p up to positions, for every layout start line and every position of EOF *)
+Theorem C08_stmt_print_parse_roundtrip_try_func :
+  forall b, wfP2 b -> StmtRoundTrip parse_tokens b.
+Proof. exact prog_roundtrip2. Qed.
+Print Assumptions C08_stmt_print_parse_roundtrip_try_func.
+
+(* the statement printer IS the correspondence-checked printer model on the embedded tree ... *)
+Theorem C08_stmt_printer_is_model_try_func :
+  forall b, wfP2 b -> pp (embed_prog b) = pp_prog b.
+Proof. exact prog_printer_eq2. Qed.
+Print Assumptions C08_stmt_printer_is_model_try_func.
+
+(* ... so the round trip holds for the model printer [pp] run on the AST itself *)
+Theorem C08_stmt_print_parse_roundtrip_pp_try_func :
+  forall b, wfP2 b -> forall l0 le epos,
+  exists t', parse_tokens (source_tokens l0 le epos (pp (embed_prog b))) = Some t' /\ strip t' = embed_prog b.
+Proof. exact prog_roundtrip_pp2. Qed.
+Print Assumptions C08_stmt_print_parse_roundtrip_pp_try_func.
+
+(* print (parse (print p)) = print p *)
+Theorem C08_stmt_print_idempotent_try_func :
+  forall b, wfP2 b -> StmtIdempotent parse_tokens b.
+Proof. exact prog_idempotent2. Qed.
+Print Assumptions C08_stmt_print_idempotent_try_func.
+
+(* key lemma, statements, extended guards: in front of ANY continuation token that separates
+   ([sepT2] = [sepT] and not except / otherwise / finally) the printed statement is read by
+   parser.run(0) as the statement, and the parser stands on that token *)
+Theorem C08_stmt_print_parse_in_context_try_func :
+  forall s, wfS2 s -> forall f ln tc k,
+    sepT2 ln tc -> (s = SReturn0 -> ln < Parser.t_line tc) ->
+    length (lay ln (pp_stmt s)) + length k <= f ->
+    exists i tr,
+      Parser.run Parser.repaired (S f) 0 (pos false (lay ln (pp_stmt s) ++ tc :: k))
+      = Parser.ROk (i, tr) (st (Some (cn false tc)) k false)
+      /\ strip tr = embed s /\ n_line tr = ln.
+Proof. exact (proj1 stmt_key2). Qed.
+Print Assumptions C08_stmt_print_parse_in_context_try_func.
+
+(* Non-vacuity.  [example_func] above (a function with a preset parameter containing a for loop
+   with try / except ... as / finally) is in the domain of the extended theorems ... *)
+Ltac wf2_tac :=
+  repeat match goal with
+  | |- _ /\ _ => split
+  | |- True => exact I
+  | |- Forall _ [] => constructor
+  | |- Forall _ (_ :: _) => constructor
+  | |- wfname _ => reflexivity
+  | |- wfe (e_id _) => apply wfe_id
+  | |- wfe (num _) => apply wfe_num
+  | |- wfe (Node "<" _ _ _ _ [_; _]) => apply (wfe_bin TokenLT); [reflexivity | reflexivity | |]
+  | |- wfe (Node "==" _ _ _ _ [_; _]) => apply (wfe_bin TokenEQ); [reflexivity | reflexivity | |]
+  | |- wfe (Node ":=" _ _ _ _ [_; _]) => apply (wfe_bin TokenASSIGN); [reflexivity | reflexivity | |]
+  | |- wfe (Node "plus" _ _ _ _ [_; _]) => apply (wfe_bin TokenPLUS); [reflexivity | reflexivity | |]
+  | |- wfe (Node "preset" _ _ _ _ [_; _]) => apply (wfe_bin TokenEQUAL); [reflexivity | reflexivity | |]
+  | |- wfe (Node "minus" _ _ _ _ [_]) => apply (WePre TokenMINUS); [reflexivity | reflexivity |]
+  | |- wfe (Node "break" _ _ _ _ []) => apply (WeAtom TokenBREAK); [reflexivity | discriminate | discriminate]
+  end.
+
+Example C08_stmt_example_func_in_domain : wfP2 example_func.
+Proof.
+  unfold wfP2, example_func. split; [discriminate|]. split; [|vm_compute; reflexivity].
+  cbn [wfB2 wfS2 wfT2 wfX2 wfO2]. unfold bin, pre, Nd. cbn [Nat.odd Nat.leb]. wf2_tac.
+Qed.
+
+(* ... and so is a program with every shape of except clause (no name; two names, one of them a
+   raw string, `as x`; one name and a bare variable; a bare variable only), an empty except
+   block, a bare return and a nested parameterless function inside except blocks, otherwise,
+   an empty finally, an empty try without clauses, and a statement that needs the ";" separator
+   after a try:
+     try { a } except { b } except "e", r"f" as x { return } except "e", y { }
+           except z { func g() { return a } } otherwise { -c } finally { }
+     try { }
+     ;-a                                                                          *)
+Definition example_try : sblock :=
+  BCons (STry (BCons (SExpr (e_id 97)) BNil)
+          (ECons [] EBNone (BCons (SExpr (e_id 98)) BNil)
+          (ECons [([101%N], true); ([102%N], false)] (EBAs [120%N]) (BCons SReturn0 BNil)
+          (ECons [([101%N], true)] (EBId [121%N]) BNil
+          (ECons [] (EBId [122%N]) (BCons (SFunc [103%N] [] (BCons (SReturn1 (e_id 97)) BNil)) BNil) ENil))))
+          (OSome (BCons (SExpr (pre "minus" (e_id 99))) BNil))
+          (OSome BNil))
+    (BCons (STry BNil ENil ONone ONone)
+      (BCons (SExpr (pre "minus" (e_id 97))) BNil)).
+
+Example C08_stmt_example_try :
+  wfP2 example_try /\ sdiffers example_try = false /\ pp (embed_prog example_try) = pp_prog example_try /\
+  nls (pp_prog example_try) = 18.
+Proof.
+  split; [|repeat split; vm_compute; reflexivity].
+  unfold wfP2, example_try. split; [discriminate|]. split; [|vm_compute; reflexivity].
+  cbn [wfB2 wfS2 wfT2 wfX2 wfO2]. unfold bin, pre, Nd. cbn [Nat.odd Nat.leb]. wf2_tac.
+Qed.
